@@ -205,6 +205,9 @@ class World (object):
     self.cur_op = None
     self.depth = 0                # >0 while inside a callback (chained calls)
     self.chained = False
+    self.check_from = 0
+    self.decl = {}                # wid -> (form if no deps, ready when declared)
+    self.parked = False           # a quit was issued during start-up
 
   def boot (self):
     P = self.P
@@ -222,6 +225,16 @@ class World (object):
       core.addListener(cls, self._life(name))
     core.addListener(P.core.ComponentRegistered, self._on_cr)
 
+  def note (self, fmt, *args):
+    self.hist.append((fmt, args))
+
+  def render (self):
+    out = []
+    for h in self.hist:
+      if h[0] == "op": out.append(self.describe(h[1]))
+      else: out.append(h[0] % h[1] if h[1] else h[0])
+    return out
+
   def run_later (self):
     while self.later:
       f, a, k = self.later.pop(0)
@@ -232,18 +245,33 @@ class World (object):
     if self.violated is None:
       if feature is None: feature = self.feature()
       self.violated = ("%s:%s:%s" % (PID, clause, feature), text)
-      self.hist.append("  !! %s: %s" % (clause, text))
+      self.note("  !! %s: %s", clause, text)
 
   def feature (self):
+    """Operation kind (for clauses about a core call that misbehaved as a whole)."""
     op = self.cur_op or ("?",)
     kind = {"reg": "register", "cwr": "call_when_ready", "ltd": "listen_to_dependencies",
             "goUp": "goUp", "release": "release", "quit": "quit", "thread": "quit-thread"}.get(op[0], op[0])
     if op[0] == "cwr" and op[1] == 0: kind += ":empty-" + op[2]
-    if op[0] == "ltd": kind += ":" + self.P.SINKS[op[1]][0]
-    if self.chained: kind += ":chained"
     return kind
 
-  def life_feature (self):
+  def subject (self, wid, trigger=False):
+    """Who misbehaved: a plain callback or a dependency-driven sink; for a waiter that did
+    not run also how it became ready."""
+    s = "callback" if wid[0] == "w" else "sink"
+    if trigger:
+      form, ready = self.decl.get(wid, (None, False))
+      if form is not None: s += ":empty-deps-" + form
+      elif ready: s += ":ready-at-declaration"
+      else: s += ":completed-by-register"
+    return s
+
+  def sink_name (self, kind):
+    return self.P.SINKS[kind][0]
+
+  def life_feature (self, clause="up"):
+    if "down" in clause or clause == "quit-lost":
+      return "quit-during-startup" if self.parked else "quit-after-startup"
     v = self.goup_variant
     if v is None: f = "before-goUp"
     elif "I" in v: f = "release-inside-handler"
@@ -256,9 +284,9 @@ class World (object):
     def h (event):
       reg = tuple(sorted(self.core.components))
       self.oplog.append(("life", name))
-      self.hist.append("  event %s" % name)
+      self.note("  event %s", name)
       err = self.model.observe(name)
-      if err: self.fail(err[0], err[1], self.life_feature())
+      if err: self.fail(err[0], err[1], self.life_feature(err[0]))
     return h
 
   def _on_cr (self, event):
@@ -279,12 +307,12 @@ class World (object):
     self.invocations += 1
     reg = tuple(sorted(self.core.components))
     self.oplog.append(("cb", tuple(sorted(deps)), reg))
-    self.hist.append("  waiter %s%s runs, registry=%s" % (wid[0], wid[1], list(reg)))
+    self.note("  waiter %s%s runs, registry=%s", wid[0], wid[1], reg)
     err = self.model.invoked(wid, reg)
     if err:
-      self.fail(err[0], err[1]); return
+      self.fail(err[0], err[1], self.subject(wid)); return
     if self.violated or self.invocations > INVOCATION_LIMIT:
-      if self.invocations > INVOCATION_LIMIT: self.fail("runaway", "more than %d callback invocations" % INVOCATION_LIMIT)
+      if self.invocations > INVOCATION_LIMIT: self.fail("runaway", "more than %d callback invocations" % INVOCATION_LIMIT, self.subject(wid))
       return
     behs = ["none", "raise"]
     behs += ["reg:" + n for n in self.names if n not in self.model.comps]
@@ -292,7 +320,7 @@ class World (object):
       behs += ["cwr:" + n for n in self.names]
     b = behs[self.ctx.choose(len(behs), "beh")]
     if b == "none": return
-    self.hist.append("    -> %s" % b)
+    self.note("    -> %s", b)
     self.oplog.append(("beh", b.split(":")[0]))
     if b == "raise":
       raise ValueError("callback of waiter %s fails" % (wid,))
@@ -304,7 +332,7 @@ class World (object):
         self.do_cwr([b[4:]], "str")
     except Exception as e:
       self.fail("raises", "chained %s raised %s: %s" % (b, type(e).__name__, e),
-                self.feature() + ":" + site_of(self.P, e))
+                ("register" if b.startswith("reg:") else "call_when_ready") + ":" + site_of(self.P, e))
     finally:
       self.depth -= 1
 
@@ -313,7 +341,7 @@ class World (object):
     if self.probing:
       self.probe_hits.append((self.probe_target, sink.kind, comp))
     else:
-      self.fail("sink-spurious-event", "sink %s got an event of %s outside a probe" % (sink.kind, comp))
+      self.fail("sink-spurious-event", "sink %s got an event of %s outside a probe" % (sink.kind, comp), self.sink_name(sink.kind))
 
   def sink_cr (self, sink, event):
     self.sink_crs[sink.kind] = self.sink_crs.get(sink.kind, 0) + 1
@@ -324,16 +352,16 @@ class World (object):
     self.invocations += 1
     reg = tuple(sorted(self.core.components))
     self.oplog.append(("wired", name, reg))
-    self.hist.append("  sink %s wired, registry=%s" % (name, list(reg)))
+    self.note("  sink %s wired, registry=%s", name, reg)
     err = self.model.invoked(("s", sink.kind), reg)
     if err:
-      self.fail(err[0], err[1]); return
+      self.fail(err[0], err[1], self.subject(("s", sink.kind))); return
     self.sink_base[sink.kind] = len(self.model.reg_calls)
     self.check_attrs(sink)
     if self.violated or self.invocations > INVOCATION_LIMIT: return
     b = self.ctx.choose(2, "sinkbeh")
     if b:
-      self.hist.append("    -> raise"); self.oplog.append(("beh", "raise"))
+      self.note("    -> raise"); self.oplog.append(("beh", "raise"))
       raise ValueError("_all_dependencies_met of %s fails" % name)
 
   def check_attrs (self, sink):
@@ -343,7 +371,7 @@ class World (object):
       got = getattr(sink, an, None)
       if got is None or got is not self.core.components.get(d):
         self.fail("sink-attr", "sink %s: attribute %s is %r, registered %s is %r"
-                  % (name, an, got, d, self.core.components.get(d)))
+                  % (name, an, got, d, self.core.components.get(d)), name)
 
   def probe (self):
     """Raise Ev on every component object ever registered; exactly the sinks the model
@@ -397,6 +425,7 @@ class World (object):
 
   def do_cwr (self, deps, form):
     wid = ("w", self.next_wid); self.next_wid += 1
+    self.decl[wid] = ((form if not deps else None), self.model.ready(deps))
     self.model.declare(wid, deps)
     cb = self.make_cb(wid, deps)
     if form == "str": arg = deps[0]
@@ -413,6 +442,7 @@ class World (object):
     name, cls, deps, handled, adm, kw = self.P.SINKS[kind]
     sink = cls(self, kind)
     self.sinks[kind] = sink
+    self.decl[("s", kind)] = (None, self.model.ready(deps))
     self.model.declare(("s", kind), deps, silent=not adm)
     self.calls += 1
     self.core.listen_to_dependencies(sink, **dict(kw))
@@ -434,11 +464,11 @@ class World (object):
       self.model.take(idx)
       self.oplog.append(("defer", code))
       if code == "I":
-        self.hist.append("  GoingUp handler takes a deferral and releases it at once")
+        self.note("  GoingUp handler takes a deferral and releases it at once")
         self.model.release(idx)
         d()
       else:
-        self.hist.append("  GoingUp handler takes a deferral (released later)")
+        self.note("  GoingUp handler takes a deferral (released later)")
         self.deferrals.append((idx, d))
     return h
 
@@ -450,6 +480,7 @@ class World (object):
 
   def do_quit (self):
     self.quits += 1
+    if self.model.starting: self.parked = True
     self.model.quit_called()
     self.calls += 1
     self.core.quit()
@@ -462,19 +493,25 @@ class World (object):
 
   # ---- top level ------------------------------------------------------------
   def ops (self):
-    ops = [("reg", n) for n in self.names]
-    if len(self.model.pending) < self.prm["maxp"]:
-      forms = self.prm["forms"]
+    prm = self.prm
+    st = prm.get("_static")
+    if st is None:
+      regs = [("reg", n) for n in self.names]
+      cwrs = []
+      forms = prm["forms"]
       for mask in range(1, 1 << self.nc):
         single = (mask & (mask - 1)) == 0
         for form in (forms[0] if single else forms[1]):
-          ops.append(("cwr", mask, form))
+          cwrs.append(("cwr", mask, form))
       for form in ("set", "list", "tuple"):
-        ops.append(("cwr", 0, form))
-      for kind in self.prm["sinks"]:
+        cwrs.append(("cwr", 0, form))
+      st = prm["_static"] = (regs, cwrs, [("goUp", v) for v in prm["goup"]])
+    ops = list(st[0])
+    if len(self.model.pending) < prm["maxp"]:
+      ops += st[1]
+      for kind in prm["sinks"]:
         if kind not in self.sinks: ops.append(("ltd", kind))
-    if self.model.starting:
-      for v in self.prm["goup"]: ops.append(("goUp", v))
+    if self.model.starting: ops += st[2]
     for j in range(len(self.deferrals)): ops.append(("release", j))
     if self.quits < 2: ops.append(("quit",))
     if self.threads: ops.append(("thread",))
@@ -493,7 +530,7 @@ class World (object):
   def do_op (self, op):
     self.cur_op = op; self.oplog = []; self.chained = False
     self.nops += 1
-    self.hist.append(self.describe(op))
+    self.hist.append(("op", op))
     try:
       k = op[0]
       if k == "reg": self.do_register(op[1])
@@ -513,16 +550,17 @@ class World (object):
     m = self.model
     errs, auto = m.quiescent()
     for wid in auto:
-      self.hist.append("  (model: sink %s must be wired now)" % self.P.SINKS[wid[1]][0])
-    for c, t in errs:
-      self.fail(c, t); return
+      self.note("  (model: sink %s must be wired now)", self.P.SINKS[wid[1]][0])
+    for c, t, wid in errs:
+      self.fail(c, t, self.subject(wid, True)); return
     exp = [(n, g, True) for (n, g) in m.reg_calls]
     if self.cr_log != exp:
       self.fail("component-registered-event", "ComponentRegistered log %s, registrations %s" % (self.cr_log, exp)); return
     for c, t in m.end_of_op():
-      self.fail(c, t, self.life_feature()); return
+      self.fail(c, t, self.life_feature(c)); return
     if m.starting and m.quit_pending and not self.threads:
-      self.fail("quit-lost", "quit() during start-up left nothing behind to retry it", self.life_feature()); return
+      self.fail("quit-lost", "quit() during start-up left nothing behind to retry it", self.life_feature("quit-lost")); return
+    if self.nops <= self.check_from: return     # replayed prefix: already probed when it was new
     self.probe()
     if self.violated: return
     for wid in auto:
@@ -554,9 +592,10 @@ class World (object):
             tuple(sinks), self.model.canon())
 
 
-def make_run (P, prm, limit):
+def make_run (P, prm, limit, check_from=0):
   def run (ctx):
     w = World(P, ctx, prm)
+    w.check_from = check_from
     with Env(w):
       w.boot()
       for step in range(limit):
@@ -580,11 +619,15 @@ def params (cfg):
               forms=(("str", "list"), ("list", "tuple", "set")))
 
 
+def public (prm):
+  return dict((k, v) for k, v in prm.items() if not k.startswith("_"))
+
+
 def _expand (args):
   prm, level, last, batch = args
   P = _import()
   rep = Report(PID, "model_checking")
-  run = make_run(P, prm, level + 1)
+  run = make_run(P, prm, level + 1, level)
   succ = []
   def on_exec (ctx, w):
     if w.nops <= level: return            # the representative itself
@@ -593,7 +636,7 @@ def _expand (args):
     rep.outcome((w.cur_op, tuple(w.oplog), w.violated and w.violated[0]))
     if w.violated:
       key, text = w.violated
-      rep.violation(key, text, dict(choices=ctx.choices(), prm=prm, history=w.hist))
+      rep.violation(key, text, dict(choices=ctx.choices(), prm=public(prm), history=w.render()))
       return
     st = digest(w.canon())
     rep.state(st)
@@ -601,7 +644,7 @@ def _expand (args):
       used = sum(1 for (c, n, l, costly) in ctx.trace if costly and c)
       succ.append((st, used, ctx.choices()))
     if len(rep.samples) < 2 and (rep.evaluations % 997) == 1 and level >= 2:
-      rep.sample(dict(history=list(w.hist)))
+      rep.sample(dict(history=w.render()))
   for choices in batch:
     explore(run, dev_bound=prm["dev"], prefix0=choices, on_exec=on_exec)
   return rep, succ
@@ -667,5 +710,5 @@ def replay (cfg, data):
   P = _import()
   prm = data["prm"]
   w = make_run(P, prm, 1 << 20)(Ctx(list(data["choices"])))
-  text = "\n".join(w.hist) + "\n=> %r" % (w.violated,)
+  text = "\n".join(w.render()) + "\n=> %r" % (w.violated,)
   return bool(w.violated), text
